@@ -2,7 +2,8 @@
 (* Model-checking wrapper of Objective: VIEW hiding act/res, export of     *)
 (* every transition as one JSON line, and the function-level laws (Pareto  *)
 (* dominance over all pairs/triples of model vectors; soundness of the     *)
-(* class-level arithmetic) as assumptions evaluated once.                  *)
+(* class-level arithmetic; correct rounding of the lattice arithmetic of    *)
+(* mode "sci") as assumptions evaluated once.                              *)
 EXTENDS Objective, TLC, Json
 
 McView == <<vals, mode>>
@@ -17,4 +18,14 @@ PrintEdge == PrintT(<<"EDGE", ToJson([from |-> SetToSeq(vals), act |-> act', res
 
 ASSUME ParetoLaws(Vecs)
 ASSUME AbsSound(Inputs \cup (-B..B))
+\* mode "sci": the lattice arithmetic is correctly rounded arithmetic (all pairs of lattice values
+\* of four small formats: lattice = whole format; lattice coarser than the format by 2 bits, by 1
+\* bit, and by so much that inexact quotients are known to be off it), and its class agrees with
+\* the class-level table on the operands offered
+ASSUME SciIn = {} \/ /\ SciLaws(Fmt(2, 2, -4, 2))
+                     /\ SciLaws(Fmt(4, 2, -6, 2))
+                     /\ SciLaws(Fmt(3, 2, -5, 3))
+                     /\ SciLaws(Fmt(6, 1, -8, 2))
+                     /\ \A c \in SciIn \cup SciNeg : LatOK(F64, c) /\ c > 0
+                     /\ SciAbsSound(SciInputs)
 =============================================================================
